@@ -22,7 +22,7 @@ func init() { gens["C09"] = genC09 }
 
 // runConcurrent drives one protocol run with every Start and every delivery in its own goroutine
 // (seeded jitter), while pollers call WaitingFor on every party.
-func runConcurrent(rc *runCtx, seed int64, pollers int, timeout time.Duration) (delivered map[string][]string, timedOut bool) {
+func runConcurrent(rc *runCtx, seed int64, pollers int, noise bool, timeout time.Duration) (delivered map[string][]string, timedOut bool) {
 	net := rc.net
 	rng := rand.New(rand.NewSource(seed))
 	var rmu sync.Mutex
@@ -145,6 +145,27 @@ func runConcurrent(rc *runCtx, seed int64, pollers int, timeout time.Duration) (
 			}()
 		}
 	}
+	// noise: unparsable wire bytes and a sender that fails validation, offered through the same entry point while the run proceeds;
+	// they must be refused without touching party state unsynchronised
+	if noise {
+		for _, n := range nodes {
+			n := n
+			wg.Add(1)
+			go func() {
+				defer wg.Done()
+				bad := &tss.PartyID{MessageWrapper_PartyID: &tss.MessageWrapper_PartyID{Id: "x", Moniker: "x", Key: nil}, Index: -1}
+				for k := 0; atomic.LoadInt32(&stop) == 0; k++ {
+					if k%2 == 0 {
+						_, _ = n.Party.UpdateFromBytes([]byte{0xff, 0x01, 0x02, byte(k)}, n.PID, true)
+					} else {
+						_, _ = n.Party.UpdateFromBytes([]byte{}, bad, false)
+					}
+					runtime.Gosched()
+					time.Sleep(20 * time.Microsecond)
+				}
+			}()
+		}
+	}
 	// starts
 	for _, n := range nodes {
 		n := n
@@ -197,7 +218,7 @@ func genC09(r *vc.Run) {
 		for k := 0; k < n; k++ {
 			rc := pr.build()
 			seed := r.Seed*100 + int64(k)
-			delivered, to := runConcurrent(rc, seed, 1+k%3, 120*time.Second)
+			delivered, to := runConcurrent(rc, seed, 1+k%3, k%2 == 1, 120*time.Second)
 			replay := fmt.Sprintf("concurrent run %s %s seed=%d", pr.proto, pr.cfg, seed)
 			if to {
 				r.Violate("concurrent-timeout|"+pr.proto, fmt.Sprintf("%s %s: concurrent delivery did not complete within the time limit (deadlock or lost result)", pr.proto, pr.cfg), replay)
